@@ -51,8 +51,10 @@ RULE = ("requests over a fixed schema: generated selections (depth <= 3, aliases
 SDL = """
 interface I { a: Int  b: Int!  c: Int }
 type T implements I { a: Int  b: Int!  c: Int }
-type Query { a: Int  b: Int!  c: Int  o: Obj  p: Obj  n: Obj!  l: [Obj]  x(i: Int!): Int  i: I }
-type Obj { a: Int  b: Int!  c: Int  o: Obj  l: [Obj]  x(i: Int!): Int  i: I }
+type Query { a: Int  b: Int!  c: Int  o: Obj  p: Obj  n: Obj!  l: [Obj]  x(i: Int!): Int  i: I
+             li: [I]  lni: [I!]!  lli: [[I]]  llni: [[I]!]  llnn: [[I!]!]! }
+type Obj { a: Int  b: Int!  c: Int  o: Obj  l: [Obj]  x(i: Int!): Int  i: I
+           li: [I]  lni: [I!]!  lli: [[I]]  llni: [[I]!]  llnn: [[I!]!]! }
 type Mutation { a: Int  b: Int  o: Obj }
 """
 COMPOSITE = ("Obj", "T")
@@ -65,6 +67,11 @@ FIELDS = {
     "T": {"a": ("Int", 0), "b": ("Int", 0), "c": ("Int", 0)},
     "Mutation": {"a": ("Int", 0), "b": ("Int", 0), "o": ("Obj", 0)},
 }
+# lists (depth 1 and 2, nullable / non-null wrappers) of the abstract type I: completing an item calls
+# I.resolve_type, which raises ResolverError for the items designated "bad" in case["items"]
+for _t in ("Query", "Obj"):
+    FIELDS[_t].update({"li": ("T", 1), "lni": ("T", 1), "lli": ("T", 2), "llni": ("T", 2), "llnn": ("T", 2)})
+ABSTRACT_LISTS = ("li", "lni", "lli", "llni", "llnn")
 # the `__typename` meta field is an ordinary resolved field of every composite type: resolve_field is
 # called with TYPE_NAME_INTROSPECTION_FIELD, so the field hooks fire and the middlewares wrap its resolver
 META = "__typename"
@@ -80,6 +87,7 @@ class _Run:
     ev = None
     world = None
     lens = None
+    items = None
     ctl = None
 
 
@@ -155,16 +163,32 @@ def _body(info):
     if w == "null":
         return None
     parent = info.parent_type.name
-    tname, is_list = FIELDS[parent][info.field_definition.name]
+    tname, depth = FIELDS[parent][info.field_definition.name]
     if tname in COMPOSITE:
-        return [{} for _ in range(_Run.lens.get(_pkey(path), 2))] if is_list else {}
+        if not depth:
+            return {}
+        rows = [[({"bad": True} if it == "bad" else {}) for it in row]
+                for row in _list_rows({"items": _Run.items, "lens": _Run.lens}, path, depth)]
+        return rows if depth == 2 else rows[0]
     return 1
+
+
+def _list_rows(case, path, depth):
+    """the items of the list field at path as rows of "ok" / "bad" (a depth-1 list is one row)"""
+    spec = case.get("items", {}).get(_pkey(path))
+    if spec is None:
+        if depth == 2:
+            return [["ok"], ["ok"]]
+        return [["ok"] * case.get("lens", {}).get(_pkey(path), 2)]
+    return spec if depth == 2 else [spec]
 
 
 def _resolve_type_I(value, ctx, info):
     # "cerr": completing the resolved value fails with a ResolverError
     if _Run.world.get(_pkey(info.path)) == "cerr":
         raise ResolverError("cannot tell the type at %s" % _pkey(info.path))
+    if isinstance(value, dict) and value.get("bad"):
+        raise ResolverError("cannot tell the type of an item of %s" % _pkey(info.path))
     return "T"
 
 
@@ -305,12 +329,15 @@ def build_tree(case):
     the field returns a value; the Coq side prunes)."""
     if case["kind"] != "exec":
         return []
+    # awaiting middlewares turn every resolver call (also the synchronously resolved ones) into a coroutine
+    every_field_awaited = case["config"] == "asyncio" and case.get("mw_async") and case["n"] > 0
+
     def go(parent_type, prefix_rel, path, sel):
         nodes = []
         for alias, name, arg, sub in sel:
             key = alias or name
             p = path + [key]
-            tname, is_list = FIELDS[parent_type][name]
+            tname, is_list = FIELDS[parent_type][name]     # is_list: list depth (0, 1, 2)
             if arg is not None and not str(arg).lstrip("-").isdigit():
                 out = "argerr"
             else:
@@ -318,8 +345,21 @@ def build_tree(case):
             kids = []
             if tname in COMPOSITE and out == "val":
                 if is_list:
-                    for idx in range(case["lens"].get(_pkey(p), 2)):
-                        kids.extend(go(tname, [idx], p + [idx], sub))
+                    # complete_list_value: the items of a row are started in order up to the first one
+                    # that cannot be completed; such a failure stops the enclosing loop over the rows as
+                    # well, unless it only surfaces once deferred values of earlier items are there
+                    for r, row in enumerate(_list_rows(case, p, is_list)):
+                        failed = row_deferred = False
+                        for c, it in enumerate(row):
+                            if it == "bad":
+                                failed = True
+                                break
+                            pref = [c] if is_list == 1 else [r, c]
+                            item_nodes = go(tname, pref, p + pref, sub)
+                            kids.extend(item_nodes)
+                            row_deferred = row_deferred or _count_deferred(item_nodes) > 0 or every_field_awaited
+                        if failed and (is_list == 1 or not row_deferred):
+                            break
                 else:
                     kids = go(tname, [], p, sub)
             nodes.append([prefix_rel + [key], out, is_deferred_field(case, parent_type, name), kids])
@@ -345,6 +385,7 @@ def _one_run(case, choose):
     _Run.ev = ev = []
     _Run.world = case.get("world", {})
     _Run.lens = case.get("lens", {})
+    _Run.items = case.get("items", {})
     text = doc_text(case)
     document = text if case["as_text"] else parse(text)
     asyncmw = config == "asyncio" and case.get("mw_async", False)
@@ -507,6 +548,10 @@ def machine_applies(case):
     not gate)"""
     if case["kind"] != "exec" or case["config"] not in DEFERRED_CFG:
         return False
+    # the C08/C09 machine has neither nested lists nor items that cannot be completed
+    doc = doc_text(case)
+    if any(f in doc for f in ("lli", "llni", "llnn")) or "bad" in json.dumps(case.get("items", {})):
+        return False
     if case["config"] == "asyncio" and case["n"] > 0 and case.get("mw_async"):
         return False
     return True
@@ -535,7 +580,7 @@ def _cprog(enc, case, argerr):
                 body = "(BInt 1%Z)"
             elif is_list:
                 items = "INil"
-                for idx in reversed(range(case["lens"].get(_pkey(p), 2))):
+                for idx in reversed(range(len(_list_rows(case, p, 1)[0]))):
                     items = "(ICons (ItObj %s) %s)" % (flds(tname, p + [idx], sub), items)
                 body = "(BList false %s)" % items
             else:
@@ -584,7 +629,7 @@ def show_expr(case, obs):
 # ------------------------------------------------------------------ cases
 def _base(config, **kw):
     c = {"kind": "exec", "config": config, "as_text": True, "k": 1, "stacking": "plain", "n": 0,
-         "mw_async": False, "op": "query", "sel": [], "world": {}, "lens": {}, "deferred": [],
+         "mw_async": False, "op": "query", "sel": [], "world": {}, "lens": {}, "items": {}, "deferred": [],
          "max_orders": 120, "seed": 0}
     c.update(kw)
     return c
@@ -642,6 +687,17 @@ def corpus():
             out.append(_base(config, sel=[[None, "i", None, [[None, "a", None, []]]], [None, "a", None, []]],
                              world={"i": "cerr"}, n=1, k=2, stacking="tracer",
                              deferred=["Query.i"] if config in DEFERRED_CFG else []))
+        # seeded C16-f / commit 60b475c: a list item that cannot be completed (resolve_type raises) must not
+        # end the request while sub-fields of earlier items / sibling rows are still resolving
+        dfr = ["T.a"] if config in DEFERRED_CFG else []
+        sub_a = [[None, "a", None, []]]
+        for fname, spec in (("li", ["ok", "bad", "ok"]), ("lni", ["ok", "ok", "bad"]),
+                            ("lli", [["ok", "bad"], ["ok"]]), ("llni", [["ok", "bad"], ["ok"]]),
+                            ("llnn", [["ok"], ["ok", "bad", "ok"], ["ok"]]), ("llni", [["bad"], ["ok"]])):
+            out.append(_base(config, sel=[[None, fname, None, sub_a], [None, "b", None, []]],
+                             items={fname: spec}, deferred=dfr, k=2, stacking="multi", n=1))
+        out.append(_base(config, sel=[[None, "o", None, [[None, "llni", None, sub_a + [[None, "b", None, []]]]]]],
+                         items={"o/llni": [["ok", "bad"], ["ok", "ok"]]}, deferred=dfr, k=1, stacking="tracer"))
         # seeded C16-e: a `__typename` hot path that bypasses resolve_field (no hooks, no middlewares):
         # plain and aliased, at the query / mutation root, in objects, on list items, under an abstract
         # type, written directly / through inline fragments / through fragment spreads
@@ -700,8 +756,11 @@ def _paths(case):
             tname, is_list = FIELDS[parent][name]
             if tname in COMPOSITE:
                 if is_list:
-                    for idx in range(case["lens"].get(_pkey(p), 2)):
-                        go(tname, p + [idx], sub)
+                    for r, row in enumerate(_list_rows(case, p, is_list)):
+                        for c, it in enumerate(row):
+                            if it == "bad":
+                                break
+                            go(tname, p + ([c] if is_list == 1 else [r, c]), sub)
                 else:
                     go(tname, p, sub)
     go("Mutation" if case["op"] == "mutation" else "Query", [], case["sel"])
@@ -720,7 +779,12 @@ def _gen_exec(rng, config, max_deferred, max_orders):
                  seed=rng.randrange(1 << 30))
     for _pass in range(4):   # list lengths decide which deeper paths exist
         for p, parent, name in _paths(case):
-            if FIELDS[parent][name][1] and _pkey(p) not in case["lens"]:
+            depth = FIELDS[parent][name][1]
+            if name in ABSTRACT_LISTS and _pkey(p) not in case["items"]:
+                def row():
+                    return [("bad" if rng.random() < 0.22 else "ok") for _ in range(rng.choice([1, 2, 2, 3]))]
+                case["items"][_pkey(p)] = row() if depth == 1 else [row() for _ in range(rng.choice([1, 2, 3]))]
+            elif depth and name not in ABSTRACT_LISTS and _pkey(p) not in case["lens"]:
                 case["lens"][_pkey(p)] = rng.choice([0, 1, 2, 2])
     for p, _parent, name in _paths(case):
         r = rng.random()
@@ -782,8 +846,8 @@ def generate(rng, tier):
                 st = rng.choice(["plain", "tracer"] if k == 1 else ["multi", "tracer", "nested"])
                 cases.append(_base(config, kind=kind, as_text=as_text, k=k, stacking=st,
                                    n=rng.choice([0, 2]), mw_async=rng.random() < 0.5, **extra))
-    n_block = 200 if quick else 900
-    n_def = 85 if quick else 220
+    n_block = 170 if quick else 900
+    n_def = 70 if quick else 200
     for config in ("blocking", "generic"):
         for _ in range(n_block):
             cases.append(_gen_exec(rng, config, 0, 1))
